@@ -397,3 +397,33 @@ def replay_file(path, log):
 REPLAY_FILE_HANDLERS = {}
 
 REPLAYERS["printers"] = replay_printers
+
+
+def replay_guard(here, job, r, f, trace, log):
+    """C19/C08/C02/C13/C16 guard contracts: the counterexample fixes entry point and clause, the rest is enumerated natively"""
+    fn = r["function"]
+    if fn == "hwloc_topology_allow":
+        exe, err = _build_native(here, "allow_replay.c", "allow_replay")
+        runs = [[exe]] if exe else []
+    else:
+        exe, err = _build_native(here, "guard_replay.c", "guard_replay")
+        runs = []
+        if exe:
+            if fn == "hwloc_topology_restrict":
+                runs.append([exe, "restrict"])
+            runs.append([exe, "eperm", fn])
+    if not runs:
+        return False, "native replay build failed: " + err, {"function": fn}
+    outs = []
+    for argv in runs:
+        try:
+            p = subprocess.run(argv, capture_output=True, text=True, timeout=120)
+        except subprocess.TimeoutExpired:
+            return True, "REPRODUCED: native call did not terminate within 120 s", {"function": fn, "argv": argv[1:]}
+        outs.append((p.stdout + p.stderr).strip()[-800:])
+        if p.returncode == 1:
+            return True, outs[-1], {"function": fn, "argv": argv[1:]}
+    return False, " | ".join(outs), {"function": fn}
+
+
+REPLAYERS["guard"] = replay_guard
